@@ -3,7 +3,7 @@
 # Re-verifies every demo: FAIL on the parent of its fix commit, PASS on the fix commit, PASS on the branch tip.
 export GOFLAGS=-mod=mod GOPROXY=off GOSUMDB=off GOTOOLCHAIN=local; unset GOWORK
 cd /tmp/fixwt || exit 2
-ids=(F01 F02 F03 F04 F05 F06 F32 F07 F08 F09 F10 F12 F13 F11 F14 F15 F16 F17 F18 F33 F19 F20 F21 F22 F23 F25 F24 F26 F27 F28 F29 F30 F31 K1 F35 F36 F37 F38 F39 F40)
+ids=(F01 F02 F03 F04 F05 F06 F32 F07 F08 F09 F10 F12 F13 F11 F14 F15 F16 F17 F18 F33 F19 F20 F21 F22 F23 F25 F24 F26 F27 F28 F29 F30 F31 K1 F35 F36 F37 F38 F39 F40 F41)
 mapfile -t shas < <(git log --reverse --format='%h' a008283..main)
 run() { # id -> rc
   local id=$1 pkg=exec
